@@ -129,6 +129,24 @@ def check_models(repo, chk, tier):
         fn, v = evaluate(ckey, "get_amp", {"mass_list": [[ma, mb], [mc, md]], "g_value": [PyFunc(lambda: ga), PyFunc(lambda: gb)], "im_sign": sp.Integer(dflt)}, [data], hooks={FL + "::cal_monentum": mom_hook})
         want = 1 / (m0 ** 2 - m ** 2 + sign * sp.I * m0 * (ga * qa / m + gb * qb / m))
         oblige("model %s (default im_sign=%+d): get_amp == 1/(m0^2-m^2 %s i m0 sum g_i q_i/m)" % (name, dflt, "+" if sign > 0 else "-"), v, want, fn.key, name, FL)
+        # below a channel threshold the channel momentum is imaginary (q = i k): the width term of that channel is real
+        # and carries the same sign convention
+        ka, kb = sp.symbols("ka kb", positive=True)
+        for tag, q1, q2 in (("below the second threshold", qa, sp.I * kb), ("below both thresholds", sp.I * ka, sp.I * kb)):
+            def mom_hook2(tr_, args, kwargs, n, _q1=q1, _q2=q2):
+                names_ = repo.fn(FL + "::cal_monentum").all_param_names()
+                b_ = dict(zip(names_, args))
+                b_.update(kwargs)
+                first_daughter = b_.get(names_[1])
+                if first_daughter == ma:
+                    return _q1
+                if first_daughter == mc:
+                    return _q2
+                raise Unmodelled("cal_monentum of unexpected channel")
+
+            fn, v = evaluate(ckey, "get_amp", {"mass_list": [[ma, mb], [mc, md]], "g_value": [PyFunc(lambda: ga), PyFunc(lambda: gb)], "im_sign": sp.Integer(dflt)}, [data], hooks={FL + "::cal_monentum": mom_hook2})
+            want2 = 1 / (m0 ** 2 - m ** 2 + sign * sp.I * m0 * (ga * q1 / m + gb * q2 / m))
+            oblige("model %s %s (q = i k): get_amp == 1/(m0^2-m^2 %s i m0 sum g_i q_i/m)" % (name, tag, "+" if sign > 0 else "-"), v, want2, fn.key, "%s:%s" % (name, tag.split()[1]), FL)
 
     # the channel momentum itself, on both sides of the threshold and of the pseudo-threshold: the documented case
     # split is on the sign of P = (m^2-(ma+mb)^2)(m^2-(ma-mb)^2) - real q for P > 0 (also below |ma-mb|), i|q| for P < 0
